@@ -325,7 +325,7 @@ Section WriteFileP.
       rewrite (drop_privs_admin _ _ Hadm).
       assert (Hg' : get (f_heap (with_heap s (upd (f_heap s) n (NFile [] k i m)))) n = Some (NFile [] k i m))
         by (cbn [with_heap f_heap]; apply wget_upd_same; exact (wget_lt _ _ _ Hgn)).
-      rewrite (write_file_ok s _ v _ data perm n k i m Hne Hg').
+      rewrite (write_file_ok s _ v _ data perm n k i m Hne Hg' Hadm).
       rewrite Hg', (drop_privs_admin _ _ Hadm). destruct data; reflexivity.
     - destruct Hfin as (F1 & F2 & _). destruct R as (R1 & R2 & R3 & R4).
       destruct (at_name_views _ _ _ _ _ _ (R4 eq_refl)) as (V1 & V2 & _).
@@ -339,7 +339,7 @@ Section WriteFileP.
       set (s1 := {| f_heap := add_child (f_heap s ++ [x]) par name (length (f_heap s));
                     f_last_id := (f_last_id s + 1)%N; f_vols := f_vols s |}) in *.
       change (get (f_heap s1) (length (f_heap s)) = Some x) in Hnew. unfold x in Hnew.
-      rewrite (write_file_ok s s1 v _ data perm (length (f_heap s)) 1 _ _ Hne Hnew).
+      rewrite (write_file_ok s s1 v _ data perm (length (f_heap s)) 1 _ _ Hne Hnew Hadm).
       rewrite Hnew, (drop_privs_admin _ _ Hadm). destruct data; reflexivity.
     - destruct R.
     - destruct R as (R1 & R2). destruct (werr_cases _ _ R1 Hnf) as (Hc & ->).
